@@ -69,7 +69,13 @@ def extract(unit, canary, tag="", template=None):
     if rc != 0:
         return None, None, (e.strip() or o.strip() or f"vx exit {rc}")
     with open(log) as f:
-        return out, json.load(f), None
+        vxlog = json.load(f)
+    # a lifted closure / match arm is known to Verus (and reported) under the name it was emitted as
+    for fn in vxlog.get("functions", []):
+        if fn.get("emitted_as"):
+            fn["lifted_from"] = f"{fn['fn']} ({fn.get('lifted', 'renamed')})"
+            fn["fn"] = fn["emitted_as"]
+    return out, vxlog, None
 
 
 def run_verus(path, extra=(), logdir=None, timeout=1500):
@@ -480,7 +486,7 @@ def run_unit_inner(unit, tier, seed):
                 ob += c
         nfail = len([v for v in viol if v["fn"] == f["fn"]])
         r["functions"].append({
-            "fn": f["fn"], "file": f["file"], "src_line": f["src_line"],
+            "fn": f["fn"], "file": f["file"], "src_line": f["src_line"], **({"lifted_from": f["lifted_from"]} if f.get("lifted_from") else {}),
             "sha256_body_tokens": hashlib.sha256(f["body_tokens"].encode()).hexdigest()[:16],
             "obligations": ob, "failed": nfail,
             "verus_success": (info or {}).get("success"), "time_us": (info or {}).get("time-micros"), "rlimit": (info or {}).get("rlimit"),
